@@ -170,6 +170,71 @@ theorem C12_wrong_dimension_never_plain {tab : UnitTable} {R : QV} {K : UnitQ} {
       injection hS with hS
       exact ⟨_, _, hS.symm⟩
 
+/-- **T3 (table).** If every row of `Cp_data` has a heat capacity that evaluates to a quantity of another dimension
+than J/(mol K), then, whenever the entry loads at all, the table is not empty and none of its values is a plain number. -/
+theorem C12_wrong_dimension_cp_never_plain {tab : UnitTable} {R : QV} {K : UnitQ} {r : Rat} {units : List (Kind × String)}
+    {data : List (String × YVal)} {c : Loaded} (env : EnvOK tab R K r)
+    (hc : loadEntry tab R K units (.map data) = .ok c)
+    (hnd : data.lookup "ND_Cp_data" = none) {rows : List YVal} (hn : data.lookup "Cp_data" = some (.seq rows))
+    (hne : rows ≠ [])
+    (hrows : ∀ row ∈ rows, ∃ tn vn x d, row = .seq [tn, vn] ∧
+      qtyLoad tab units .molarHeatCapacity vn = .ok (.q (.qty x d)) ∧ d ≠ Dim.molarEntropy) :
+    c.cp ≠ [] ∧ ∀ kv ∈ c.cp, ∃ y d, kv.2 = .qty y d := by
+  obtain ⟨p, Tq, cp, hp, _, _, _, hCp, hcp, _⟩ := loadEntry_ok_inv hc
+  have mem : ∀ m, m ∈ [mRange, mTref, mNdCp, mNdH, mNdS, mCp, mH, mS] → m ∈ thermoSchema := fun m h => thermoSchema_eq ▸ h
+  have l1 := lookup_of_member hp (mem mNdCp (by simp)) (member_optional_absent (tab := tab) (units := units) hnd)
+  obtain ⟨rr, hrr, l2⟩ := loadMembers_lookup thermoSchema p thermoSchema_nodup hp mCp (mem mCp (by simp))
+  simp only [mNdCp, Option.map_none] at l1
+  -- the rows load to pairs whose second component is the wrong-dimension quantity
+  have hm : loadMember tab units data mCp =
+      (load tab units mCp.ty (.seq rows) >>= fun v => .ok (some (mCp.name, v))) := by
+    simp [loadMember, mCp, hn]
+  rw [hm] at hrr
+  obtain ⟨v, hv, hrr⟩ := bind_eq_ok hrr
+  cases hrr
+  simp only [mCp, load_list_seq] at hv
+  obtain ⟨ls, hls, hv⟩ := bind_eq_ok hv
+  cases hv
+  have hf := mapM_ok_forall₂ _ rows ls hls
+  have hall : ∀ b ∈ ls, ∃ t y d, b = LVal.pair t (.q (.qty y d)) ∧ d ≠ Dim.molarEntropy := by
+    intro b hb
+    obtain ⟨row, hrow, hload⟩ := forall₂_mem_right hf hb
+    obtain ⟨tn, vn, x, d, rfl, hq, hd⟩ := hrows row hrow
+    rw [load] at hload
+    simp only [load] at hload
+    obtain ⟨t', _, hload⟩ := bind_eq_ok hload
+    rw [hq] at hload
+    simp only [ok_bind] at hload
+    cases hload
+    exact ⟨t', x, d, rfl, hd⟩
+  have hlsne : ls ≠ [] := by
+    intro e; subst e
+    cases hf with
+    | nil => exact hne rfl
+  simp only [mCp, Option.map_some] at l2
+  obtain ⟨b0, bs, rfl⟩ := List.exists_cons_of_ne_nil hlsne
+  rw [env.R_eq, env.K_eq] at hCp
+  simp only [cCp, l1, l2] at hCp
+  have hq := cpPoints_wrong_dim env.r_ne (b0 :: bs) cp hall hCp
+  have hcpne : cp ≠ [] := by
+    intro e; subst e
+    obtain ⟨t, y, d, rfl, _⟩ := hall b0 (by simp)
+    cases t with
+    | q tq =>
+      simp only [cpPoints] at hCp
+      obtain ⟨_, _, h⟩ := bind_eq_ok hCp
+      obtain ⟨_, _, h⟩ := bind_eq_ok h
+      obtain ⟨_, _, h⟩ := bind_eq_ok h
+      cases h
+    | none => simp [cpPoints] at hCp
+    | f _ => simp [cpPoints] at hCp
+    | pair _ _ => simp [cpPoints] at hCp
+    | list _ => simp [cpPoints] at hCp
+  rw [hcp]
+  refine ⟨?_, dictOfList_all (fun v => ∃ y d, v = QV.qty y d) cp hq⟩
+  unfold dictOfList
+  exact foldl_dinsert_ne_nil cp [] (Or.inl hcpne)
+
 /-- **T3 (temperature).** A reference temperature that evaluates to a quantity of another dimension is never loaded
 (`in_units('K')` raises `UnitsError`, reported as `InputDataError`). -/
 theorem C12_wrong_dimension_temperature_rejected {tab : UnitTable} {R : QV} {K : UnitQ} {r : Rat}
